@@ -9,6 +9,8 @@ import VsgModel.Engine.Relations
 import VsgProofs.Lemmas.SortByStart
 import VsgProofs.Lemmas.BaseWsFull
 import VsgProofs.Lemmas.BaseWsEffects
+import VsgProofs.Lemmas.BaseCaseTok
+import VsgProofs.Lemmas.BaseCaseAscii
 namespace Vsgm.C10
 open Vsgm
 
@@ -136,5 +138,76 @@ example :
   exact ⟨rfl, rfl, rfl, rfl⟩
 
 /-! END ag_bws -/
+
+/-! ### BEGIN ag_bcase (case family, B-full) -/
+/-! ### layer B, the case family: the analysis of a fixed region asks for nothing more -/
+
+section caseFamily
+open Base Base.Case
+
+/-- `token_case` (243 rules), every style, every prefix / suffix / whole-word exception list without
+    duplicate-by-case entries: after the fix the analysis of the same region
+      * reports NOTHING for `lower` and `upper`,
+      * reports what it reported (value None) for `upper_or_lower`, and the fix does nothing,
+      * reports the value that is already there for the pattern styles (camelCase … regex),
+    so a second fix is the identity in every case. -/
+theorem bfull_case_idem {E : Env} {fold : Str → Str} {lc uc fc : Char → Char}
+    (T : CharWiseIdem E fold lc uc fc) (owner : String) (ho : owner ∈ Base.caseTokenOwners)
+    (params : Base.KV) (p : Params) (old new : List Tok) (a : Action)
+    (hnd : NoCaseDup E p.exceptions)
+    (ha : TokenCase.analyzeToi E p old = .ok (some a))
+    (hf : Base.fixByOwner owner params (Base.caseActionKV a) old = some (.ok new)) :
+    ∃ o, TokenCase.analyzeToi E p new = .ok o ∧
+      ((p.style = .lower ∨ p.style = .upper) → o = none) ∧
+      ∀ a', o = some a' → Base.fixByOwner owner params (Base.caseActionKV a') new = some (.ok new) := by
+  rw [Base.fixByOwner_tokenCase owner ho] at hf
+  simp only [Option.some.injEq] at hf
+  obtain ⟨o, h1, h2, h3⟩ := TokenCase.analyze_fix_idem T p old new a hnd ha hf
+  refine ⟨o, h1, h2, fun a' ha' => ?_⟩
+  rw [Base.fixByOwner_tokenCase owner ho, h3 a' ha']
+
+/-- `upper_or_lower` is unrepairable: the analysis records the value None and `_fix_violation`
+    returns the region unchanged (the violation stays, the file does not change) -/
+theorem bfull_case_upper_or_lower_unrepairable {E : Env} {fold : Str → Str} {lc uc fc : Char → Char}
+    (T : CharWise E fold lc uc fc) (owner : String) (ho : owner ∈ Base.caseTokenOwners)
+    (params : Base.KV) (p : Params) (old : List Tok) (a : Action)
+    (hst : p.style = .upperOrLower) (hx : ∀ t, old[0]? = some t → p.exceptions.contains t.val = false)
+    (ha : TokenCase.analyzeToi E p old = .ok (some a)) :
+    a.value = none ∧ Base.fixByOwner owner params (Base.caseActionKV a) old = some (.ok old) := by
+  obtain ⟨t, ht, hc⟩ := TokenCase.analyze_get ha
+  have hv := check_upperOrLower T hst (hx t ht) hc
+  refine ⟨hv, ?_⟩
+  rw [Base.fixByOwner_tokenCase owner ho]
+  unfold TokenCase.fixV
+  simp [hv]
+
+/-- EXCLUDED CASE of `bfull_case_idem` (hypothesis `NoCaseDup`), proved on the model: with
+    `case_exceptions: [Abc, abc]` the value `ABC` is first lower-cased to `abc`, which the second
+    analysis finds in the list at the position of `Abc` and asks to change again -/
+theorem bfull_case_idem_dup_witness :
+    ∃ (p : Params) (old new : List Tok) (a a' : Action),
+      TokenCase.analyzeToi (asciiEnv fun _ _ => false) p old = .ok (some a) ∧
+      TokenCase.fixV a old = .ok new ∧
+      TokenCase.analyzeToi (asciiEnv fun _ _ => false) p new = .ok (some a') ∧
+      TokenCase.fixV a' new ≠ .ok new :=
+  ⟨{ name := ['s'], style := .lower, prefixes := [], suffixes := [], exceptions := [['A','b','c'], ['a','b','c']] },
+    [⟨0, .code, ['A','B','C']⟩], [⟨0, .code, ['a','b','c']⟩],
+    { value := some ['a','b','c'], index := 0 }, { value := some ['A','b','c'], index := 0 },
+    by decide +kernel, by decide +kernel, by decide +kernel, by decide +kernel⟩
+
+/-- the three `consistent_*` owners: the spelling the analysis chooses is a fixed point of the
+    choice — the token asks for nothing once it has it -/
+theorem bfull_case_consistent_idem (E : Env) (ids : List Str) (v e : Str) :
+    (Consistent.expectedFirst E ids v = some e → Consistent.expectedFirst E ids e = none) ∧
+    (Consistent.expectedMap E ids v = .ok (some e) → Consistent.expectedMap E ids e = .ok none) :=
+  ⟨Consistent.expectedFirst_idem, Consistent.expectedMap_idem⟩
+
+/-- the hypotheses of `bfull_case_idem` are satisfiable (ASCII tables) -/
+example (fm : String → Str → Bool) : CharWiseIdem (asciiEnv fm) asciiLowerS asciiLowerC asciiUpperC asciiLowerC :=
+  ascii_charWiseIdem fm
+
+end caseFamily
+
+/-! ### END ag_bcase -/
 
 end Vsgm.C10
